@@ -546,7 +546,15 @@ Fixpoint decode_all (fuel : nat) (c : dcfg) (s : dstate) (out : list fit) : outc
     | _, _ =>
       match decode_one c s with
       | Ok (ft, s') => decode_all f c s' (ft :: out)
-      | Err e => (Err e, rev (s_events s))
+      | Err e =>
+          (* Next() is false as soon as the next header cannot be read; a caller looping `for dec.Next() { dec.Decode() }` then
+             gets io.EOF from one more Decode -- the usual end of stream.  That is also what a cut-off header that already sat
+             in the read buffer yields (known finding eof_kind_depends_on_chunking): after at least one sequence it ends the
+             stream without an error. *)
+          match out, decode_file_header c s with
+          | _ :: _, Err e' => if e' =? E_EOF then (Ok (rev out), rev (s_events s)) else (Err e, rev (s_events s))
+          | _, _ => (Err e, rev (s_events s))
+          end
       | Panic p => (Panic p, rev (s_events s))
       | OutOfFuel => (OutOfFuel, rev (s_events s))
       end
